@@ -73,7 +73,7 @@ def run(ctx):
     for case in cases:
         for unique in (False, True):
             jobs.append({"case": case, "variant": {"unique": unique}, "seed": ctx.seed})
-        if case["alg"] == "row" and case["sh"][0] == case["sh"][1]:
+        if case["alg"] == "row" and len(case["sh"]) == 2 and case["sh"][0] == case["sh"][1]:
             jobs.append({"case": case, "variant": {"unique": True, "method": "mf"}, "seed": ctx.seed})
     results = core.pmap(eng.run_variant, jobs, chunksize=8)
     for job, res_ in zip(jobs, results):
